@@ -43,7 +43,7 @@ Plain(n) == <<"", n>>                 \* unqualified <<schema-or-qualifier, name
 With(f, n) == [toks |-> f.toks, T |-> f.T \cup n.T, TQ |-> f.TQ \cup n.TQ, C |-> f.C \cup n.C, CQ |-> f.CQ \cup n.CQ,
                F |-> f.F \cup n.F, A |-> f.A \cup n.A]
 
-LeafKinds == {"from", "alias", "as-alias", "schema", "two-tables", "join-inner", "join-left", "join-right", "join-full", "join-cross",
+LeafKinds == {"from", "alias", "as-alias", "schema", "two-tables", "join-two", "join-two-schema", "join-inner", "join-left", "join-right", "join-full", "join-cross",
               "where-fn", "group-having-order", "insert-values", "update", "delete", "merge", "case", "between-in-cast", "window",
               "string-keyword", "count-star", "shared"}
 NestKinds == {"in-subquery", "exists", "scalar-subquery", "derived", "join-derived", "cte", "insert-select", "update-subquery",
@@ -69,6 +69,15 @@ Leaf(k, L) ==
          LET kw == CASE k = "join-inner" -> <<"JOIN">> [] k = "join-left" -> <<"LEFT", "JOIN">> [] k = "join-right" -> <<"RIGHT", "OUTER", "JOIN">> [] OTHER -> <<"FULL", "JOIN">> IN
          [toks |-> <<"SELECT", xa, ".", ca, "FROM", ta, xa>> \o kw \o <<tb, xb, "ON", xa, ".", cb, "=", xb, ".", cc>>,
           T |-> {ta, tb}, TQ |-> {Plain(ta), Plain(tb)}, C |-> {ca, cb, cc}, CQ |-> {<<xa, ca>>, <<xa, cb>>, <<xb, cc>>}, F |-> {}, A |-> {xa, xb}]
+    [] k \in {"join-two", "join-two-schema"} ->
+         \* two joins: the parser plants a synthetic left-side name built from the FIRST table's name as written
+         LET first == IF k = "join-two" THEN <<ta>> ELSE <<"sch", ".", ta>>
+             tc == Tab(L, "c") IN
+         [toks |-> <<"SELECT", xa, ".", ca, "FROM">> \o first \o <<xa, "JOIN", tb, xb, "ON", xa, ".", cb, "=", xb, ".", cc,
+                     "LEFT", "JOIN", tc, "ON", xb, ".", cc, "=", tc, ".", cd>>,
+          T |-> {IF k = "join-two" THEN ta ELSE "sch." \o ta, tb, tc},
+          TQ |-> {IF k = "join-two" THEN Plain(ta) ELSE <<"sch", ta>>, Plain(tb), Plain(tc)},
+          C |-> {ca, cb, cc, cd}, CQ |-> {<<xa, ca>>, <<xa, cb>>, <<xb, cc>>, <<tc, cd>>}, F |-> {}, A |-> {xa, xb}]
     [] k = "join-cross" ->
          [toks |-> <<"SELECT", ca, "FROM", ta, "CROSS", "JOIN", tb>>, T |-> {ta, tb}, TQ |-> {Plain(ta), Plain(tb)}, C |-> {ca}, CQ |-> {Plain(ca)}, F |-> {}, A |-> {}]
     [] k = "where-fn" ->
